@@ -51,7 +51,7 @@ def mime_of(name):
 
 class P(ServeProp):
     ID = "C02"
-    THEOREMS = ["C02_lookup_refines", "C02_served_exact", "C02_wire_single", "C02_none_is_404", "C02_query_fragment_irrelevant", "C02_reparse_clean", "C02_mime_by_extension", "C02_mime_is_reference", "C02_mime_unknown_is_default", "C02_mime_tables_agree"]
+    THEOREMS = ["C02_lookup_refines", "C02_served_exact", "C02_wire_single", "C02_none_is_404", "C02_query_fragment_irrelevant", "C02_reparse_clean", "C02_F4_witness", "C02_mime_by_extension", "C02_mime_is_reference", "C02_mime_unknown_is_default", "C02_mime_tables_agree"]
     COQ_TARGETS = ["theories/Props/C02.vo", "theories/Extract.vo"]
     N_QUICK = 2000
     N_THOROUGH = 60000
@@ -70,6 +70,14 @@ class P(ServeProp):
         for i in range(n):
             sizes = big if rnd.random() < 0.05 else (0, 1, 2, 10, 10, 300)
             t = gs.gen_tree(rnd, maxents=rnd.choice([3, 6, 10, 14]), sizes=sizes)
+            if rnd.random() < 0.2:
+                # a directory with an index page (and sometimes a same-named .html sibling): the lookup order is decided on these
+                d = rnd.choice([x for x in t.dirs if x.startswith("outer/root")])
+                if d == "outer/root" or rnd.random() < 0.5:
+                    d = d + "/" + rnd.choice(["docs", "d.x", "v1..2", "a b", "é"])
+                    if not t.has(d): t.ents.append(("D", d)); t.dirs.append(d)
+                if (d in t.dirs) and not t.has(d + "/index.html"): t.ents.append(("F", d + "/index.html", gs.file_data(rnd, sizes)))
+                if rnd.random() < 0.3 and not t.has(d + ".html"): t.ents.append(("F", d + ".html", b"sibling-page"))
             inroot = t.inroot()
             r = rnd.random()
             if inroot and r < 0.8:
@@ -86,6 +94,7 @@ class P(ServeProp):
                 elif m < 0.64: x += ".html"
                 elif m < 0.66: x += "#f?x"
                 elif m < 0.68 and "/" in x[1:]: x = x.rsplit("/", 1)[0]
+                elif m < 0.76: x += rnd.choice(["?next=/", "#/", "?return=" + x + "/", "?/", "?a=b/#c/", "?x=.html", "#.html", "?index.html", "/?next=/", "?a=/index.html"])
                 tg = x
             else:
                 tg = gs.gen_target(rnd, t)
@@ -100,9 +109,10 @@ class P(ServeProp):
         tgt = rl[1]
         if not tgt.startswith("/"):
             return None, None
-        if "#" in tgt and "?" in tgt and tgt.index("#") < tgt.index("?"):
-            return None, "frag-before-query"
-        path = tgt.split("?")[0].split("#")[0]
+        # a '#' before the first '?': by RFC 3986 everything from the '#' on is the fragment; the vendored url-build-parse cuts at the first
+        # '?' instead and keeps "#..." in the path.  The expectation is the RFC's; what differs from it is the listed class C02-F4
+        fbq = "#" in tgt and "?" in tgt and tgt.index("#") < tgt.index("?")
+        path = tgt.split("#")[0].split("?")[0]
         if path in SPECIAL or ".." in path.split("/") or "\\" in path:
             return None, None
         tv = TreeView(pc["ents"])
@@ -110,7 +120,7 @@ class P(ServeProp):
         e = tv.resolve(path)
         if e == "LINK":
             return None, None
-        tag = "filtered-char" if filt else None
+        tag = "frag-before-query" if fbq else "filtered-char" if filt else None
         if e is not None and e[0] == "F":
             return ("200", e[1], mime_of(path)), tag
         if e is not None and e[0] == "D":
@@ -166,6 +176,8 @@ class P(ServeProp):
             return "C02-F2"
         if tag == "html-html" and sig == "file-selected-but-status-404":
             return "C02-F3"
+        if tag == "frag-before-query":
+            return "C02-F4"
         return None
 
     def nontrivial(self, line, out):
